@@ -85,7 +85,16 @@ CHECKS.update({
    design_ref="5", note="Trusted base: the scheduler in harness/src/threadmc/sched.rs; the stand-ins in clock-bound-d/src/verif.rs (they wrap the real std channels and threads; a disagreement between the model queue and the real channel is a hard error). Code between two scheduling points is assumed atomic (workers share nothing but channels and the segment). Bounded preemptions and horizon; not an unbounded liveness proof."),
 })
 
-NOT_APPLICABLE = {}
+CHECKS.update({
+ "C16": dict(engine="gridmc", category="exploration", technique="bounded-exhaustive enumeration of a structured alphabet of file contents and path kinds on the real open / repair paths against a validator transcribed from the documentation",
+   text="Every truncation/extension length 0..80 of a valid segment, the product magic x declared size x version x generation x body, every single-byte mutation (5 values) of the first 64 bytes, and missing file / missing parents / directory / dangling symlink: ShmReader::new and ClockBoundClient::new_with_path must return exactly the outcome the documented header rules give (kind, errno for system calls), never crash (each case runs in a forked worker); then the real ShmWriter::new + one write() over the same path: a fresh reader and the client library read back exactly the published record, and a file that was unusable is exactly the documented 72-byte layout afterwards.",
+   design_ref="6", note="Trusted base: the validator in harness/src/gridmc/segfiles.rs (transcribed from the statement and docs); tmpfs semantics. Structured alphabet, not all byte contents (stated in the evidence)."),
+ "C17": dict(engine="gridmc", category="exploration", technique="bounded-exhaustive enumeration + differential execution (C library vs Rust client on the same segment at the same virtual instant; file bytes vs a decoder transcribed from the protocol document)",
+   text="(i) 9000 records (product of field alphabets x 3 statuses) written by the real ShmWriter are decoded from the file with offsets/widths transcribed by hand from docs/PROTOCOL.md (magic in any of the readings the document allows, size 72, version 1, even generation, every field, status 0/1/2). (ii) A C program compiled at check time against clockbound.h and linked with the freshly built libclockbound.so and libclockbound.a (it defines clock_gettime itself, so the library reads the scripted clock) is compared with the Rust client on ~5300 cases per library: record x age grid incl. both status thresholds and the causality window, injected clock_gettime failures, and the C16 file alphabet for clockbound_open; interval, status, error kind, errno and detail must agree.",
+   design_ref="6", note="Trusted base: cc, symbol interposition of clock_gettime (checked: the C program reports which clock the library read first), the hand-transcribed decoder."),
+})
+
+NOT_APPLICABLE = {"C01": "check in progress (end-to-end containment world, DESIGN.md section 4.3/4.4); not claimed until it is built"}
 
 def main():
     checks = []
